@@ -23,7 +23,8 @@ import (
 // ===================================================================================================
 // Generic part (generated copy of the generic block of harness/commit/c20_test.go; edit there, then run lib/c20_sync.py): JSON tree, Go type
 // descriptors derived by reflection following encoding/json's rules, value printer, random value
-// generator, type-directed mutation of honest encodings.
+// generator, type-directed mutation of honest encodings.  Encodings travel to the judge as bytes
+// (Model/JsonText.v prints and parses them); the tree type here only serves the mutation engine.
 // ===================================================================================================
 
 // texts: dictionary reference when the string is a known member name, else 7-byte chunks packed into
@@ -182,7 +183,45 @@ func vC20Str(s string) string {
 	sb.WriteByte('"')
 	return sb.String()
 }
-func (j *vC20J) Ser(sb *strings.Builder) {
+// style 0: compact; style > 0 (seed of a small generator): white space between the tokens and member names partly
+// written with \u00XX escapes (member names go through encoding/json's own unquoting, never through a custom
+// unmarshaler)
+type vC20Style struct{ s uint64 }
+
+func (st *vC20Style) next(n int) int {
+	if st == nil || st.s == 0 {
+		return -1
+	}
+	st.s = st.s*6364136223846793005 + 1442695040888963407
+	return int((st.s >> 33) % uint64(n))
+}
+func (st *vC20Style) ws(sb *strings.Builder) {
+	switch st.next(6) {
+	case 0:
+		sb.WriteByte(' ')
+	case 1:
+		sb.WriteString("\n\t")
+	case 2:
+		sb.WriteString("\r\n  ")
+	}
+}
+func (st *vC20Style) key(k string, sb *strings.Builder) {
+	if len(k) == 0 || st.next(3) != 0 {
+		sb.WriteString(vC20Str(k))
+		return
+	}
+	i := st.next(len(k))
+	pre, post := vC20Str(k[:i]), vC20Str(k[i+1:])
+	esc := fmt.Sprintf(`\u%04x`, k[i])
+	if k[i] == '/' && st.next(2) == 0 {
+		esc = `\/`
+	} else if st.next(2) == 0 {
+		esc = fmt.Sprintf(`\u%04X`, k[i])
+	}
+	sb.WriteString(pre[:len(pre)-1] + esc + post[1:])
+}
+func (j *vC20J) Ser(sb *strings.Builder) { j.SerStyle(sb, nil) }
+func (j *vC20J) SerStyle(sb *strings.Builder, st *vC20Style) {
 	switch j.k {
 	case 'n':
 		sb.WriteString("null")
@@ -196,22 +235,30 @@ func (j *vC20J) Ser(sb *strings.Builder) {
 		sb.WriteString(vC20Str(j.s))
 	case 'a':
 		sb.WriteByte('[')
+		st.ws(sb)
 		for i, e := range j.arr {
 			if i > 0 {
 				sb.WriteByte(',')
+				st.ws(sb)
 			}
-			e.Ser(sb)
+			e.SerStyle(sb, st)
+			st.ws(sb)
 		}
 		sb.WriteByte(']')
 	case 'o':
 		sb.WriteByte('{')
+		st.ws(sb)
 		for i := range j.keys {
 			if i > 0 {
 				sb.WriteByte(',')
+				st.ws(sb)
 			}
-			sb.WriteString(vC20Str(j.keys[i]))
+			st.key(j.keys[i], sb)
+			st.ws(sb)
 			sb.WriteByte(':')
-			j.vals[i].Ser(sb)
+			st.ws(sb)
+			j.vals[i].SerStyle(sb, st)
+			st.ws(sb)
 		}
 		sb.WriteByte('}')
 	}
@@ -219,6 +266,13 @@ func (j *vC20J) Ser(sb *strings.Builder) {
 func (j *vC20J) Bytes() []byte {
 	var sb strings.Builder
 	j.Ser(&sb)
+	return []byte(sb.String())
+}
+func (j *vC20J) BytesStyle(seed uint64) []byte {
+	var sb strings.Builder
+	sb.WriteString(" ")
+	j.SerStyle(&sb, &vC20Style{s: seed | 1})
+	sb.WriteString("\n")
 	return []byte(sb.String())
 }
 func (j *vC20J) Coq() string {
@@ -599,10 +653,17 @@ func vC20Big(r *vRand) *big.Int {
 }
 func vC20Ident(r *vRand) string {
 	const cs = "abcdefghijklmnopqrstuvwxyzABCDEFXYZ0123456789_-."
+	// one in four free strings (string fields, string map keys) uses the whole ASCII range: the characters the
+	// encoder escapes (quote, backslash, control characters, < > &), 0x7f, /
+	const sp = "\"\\/<>&\x00\x01\b\t\n\f\r\x1f\x7f '"
+	wide := r.Chance(1, 4)
 	n := r.Range(0, 8)
 	b := make([]byte, n)
 	for i := range b {
 		b[i] = cs[r.Intn(len(cs))]
+		if wide && r.Bool() {
+			b[i] = sp[r.Intn(len(sp))]
+		}
 	}
 	return string(b)
 }
@@ -1152,7 +1213,7 @@ func vC20RunCodec(r *vRand, sink *vSink, sinkName string, c vC20Codec, n int) {
 		}
 		honest := i%2 == 0
 		if honest {
-			j := vC20Parse(b)
+			// the bytes themselves go to the judge: the model prints its own tree and must arrive at the same bytes
 			d, derr := c.dec(b)
 			flag := false
 			dq := cNone()
@@ -1162,7 +1223,7 @@ func vC20RunCodec(r *vRand, sink *vSink, sinkName string, c vC20Codec, n int) {
 				flag = err2 == nil && bytes.Equal(b, b2)
 			}
 			sink.Emit(sinkName, c.name+"/honest", len(b) > 40,
-				cPair(cTup(tq, vq, cNone()), cTup(j.Coq(), dq, cBool(flag))),
+				cPair(cTup(tq, vq, cNone()), cTup(vC20Chunks(b), dq, cBool(flag))),
 				map[string]any{"bytes": string(b)})
 			continue
 		}
@@ -1180,11 +1241,19 @@ func vC20RunCodec(r *vRand, sink *vSink, sinkName string, c vC20Codec, n int) {
 			}
 		}
 		fb := j.Bytes()
+		if r.Chance(1, 3) { // the same tree spelt with white space and escaped member names
+			fb = j.BytesStyle(r.U64())
+			label += "+respelt"
+		}
 		if !json.Valid(fb) {
 			panic("harness serialiser produced invalid JSON: " + string(fb))
 		}
+		if r.Chance(1, 12) { // something after the value: json.Unmarshal must refuse it
+			fb = append(fb, vPick(r, []string{"x", " {}", ",", "]", "\n1", "\"\"", "\x00"})...)
+			label += "+trailing"
+		}
 		d, derr := c.dec(fb)
-		out := cTup("JNull", cNone(), "true")
+		out := cTup("[]", cNone(), "true")
 		if derr == nil {
 			dq := vC20Val(t, d) // before Encode (commit Outcome.Encode sorts in place)
 			b2, err2 := c.enc(d)
@@ -1197,12 +1266,12 @@ func vC20RunCodec(r *vRand, sink *vSink, sinkName string, c vC20Codec, n int) {
 				b3, err4 := c.enc(d2)
 				flag = err4 == nil && bytes.Equal(b2, b3)
 			}
-			out = cTup(vC20Parse(b2).Coq(), cSome(dq), cBool(flag))
+			out = cTup(vC20Chunks(b2), cSome(dq), cBool(flag))
 			if c.fix != nil && err3 == nil && vC20Val(t, d2) != dq {
 				// the encoder canonicalised the decoded value (sorted a list, turned nil into empty): judge the
 				// canonical value as an honest one; the idempotence flag is still the real code's
 				sink.Emit(sinkName, c.name+"/foreign-canon/"+label, true,
-					cPair(cTup(tq, vC20Val(t, d2), cNone()), cTup(vC20Parse(b2).Coq(), cSome(vC20Val(t, d2)), cBool(flag))),
+					cPair(cTup(tq, vC20Val(t, d2), cNone()), cTup(vC20Chunks(b2), cSome(vC20Val(t, d2)), cBool(flag))),
 					map[string]any{"bytes": string(fb), "mutation": label})
 				continue
 			}
@@ -1212,7 +1281,7 @@ func vC20RunCodec(r *vRand, sink *vSink, sinkName string, c vC20Codec, n int) {
 			acc = "accepted"
 		}
 		sink.Emit(sinkName, c.name+"/foreign/"+label+"/"+acc, derr == nil,
-			cPair(cTup(tq, vq, cSome(j.Coq())), out),
+			cPair(cTup(tq, vq, cSome(vC20Chunks(fb))), out),
 			map[string]any{"bytes": string(fb), "mutation": label})
 	}
 }
